@@ -21,10 +21,13 @@ def ostr(s):
     return b + b'\x00' * (4 - len(b) % 4)
 
 
-def enc_msg(addr, args):
-    tags, body = ',', b''
+def enc_args(args):
+    tags, body = '', b''
     for a in args:
-        if isinstance(a, bool):
+        if isinstance(a, list):                                   # OSC array: '[' ... ']' in the type tags only
+            t, b = enc_args(a)
+            tags += '[' + t + ']'; body += b
+        elif isinstance(a, bool):
             tags += 'T' if a else 'F'
         elif isinstance(a, int):
             tags += 'i'; body += struct.pack('>i', a)
@@ -34,7 +37,12 @@ def enc_msg(addr, args):
             tags += 's'; body += ostr(a)
         elif isinstance(a, bytes):
             tags += 'b'; body += struct.pack('>i', len(a)) + a + b'\x00' * (-len(a) % 4)
-    return ostr(addr) + ostr(tags) + body
+    return tags, body
+
+
+def enc_msg(addr, args):
+    tags, body = enc_args(args)
+    return ostr(addr) + ostr(',' + tags) + body
 
 
 def enc_bundle(tt, elems):
@@ -289,7 +297,7 @@ class Check(common.Check):
                 out.append(rng.choice([True, False]))
         return out
 
-    def g_blob_args(self, rng):
+    def g_blob_args(self, rng, depth=0):
         """a blob of every size mod 4 in every argument position, followed by data-carrying arguments"""
         n = rng.randrange(1, 5)
         pos = rng.randrange(n)
@@ -300,6 +308,9 @@ class Check(common.Check):
             else:
                 out.append(rng.choice([rng.choice([1, -2, 70000]), rng.choice([0.5, -2.25, 7.0]),
                                        rng.choice(['abc', 'x', 'abcd', '']), rng.choice([True, False])]))
+        if depth < 3 and rng.random() < 0.45:                     # array type tags, nested too, data before and after
+            for _ in range(rng.randrange(1, 3)):
+                out.insert(rng.randrange(len(out) + 1), self.g_blob_args(rng, depth + 1) if rng.random() < 0.85 else [])
         return out
 
     def g_blob_dgram(self, rng):
@@ -428,6 +439,17 @@ class Check(common.Check):
             a = p if rng.random() < 0.5 else self.g_pattern_for(rng, p)
             ops.insert(rng.randrange(len(ops) // 2, len(ops) + 1),
                        ['recv', float(100.75).hex(), 0, 57120, enc_msg(a, self.g_args(rng)).hex(), [IP, 5000], 'strict'])
+        if rids and rng.random() < 0.3:                           # permanent toggled forth and back, then CmdPeriod
+            rid = rng.choice(rids)
+            path = next(op[3] for op in ops if op[0] == 'new' and op[1] == rid)
+            path = path if path.startswith('/') else '/' + path
+            tail = [['permanent', rid, True]] + ([['disable', rid], ['enable', rid]] if rng.random() < 0.2 else []) + \
+                   [['permanent', rid, False]]
+            if rng.random() < 0.3:
+                tail += [['permanent', rid, True], ['permanent', rid, False]]
+            tail += [['cmdperiod'],
+                     ['recv', float(100.75).hex(), 0, 57120, enc_msg(path, self.g_args(rng)).hex(), [IP, 5000], 'strict']]
+            ops += tail
         case = {'k': 'hist', 'ops': ops}
         if rng.random() < 0.3 and nfid:                   # some user functions raise while handling a message
             case['raise'] = sorted(set(rng.randrange(nfid) for _ in range(rng.randrange(1, 3))))
